@@ -118,24 +118,38 @@ func c17Check(n ast.Node) {
 	verifAssert(sameTree(got, n), "printed expression parses to a different tree")
 }
 
-// H_roundLeaf: every leaf, alone and under each unary operator.
-func H_roundLeaf(k, wrap int) {
-	n := c17Leaf(k)
+// c17Wrap places n under a unary operator, inside an index, a call, a list or a map literal.
+func c17Wrap(n ast.Node, wrap int) ast.Node {
 	switch wrap {
 	case 1:
-		n = &ast.NegateNode{Arg: n}
+		return &ast.NegateNode{Arg: n}
 	case 2:
-		n = &ast.NotNode{Arg: n}
+		return &ast.NotNode{Arg: n}
 	case 3:
-		n = &ast.DataRefNode{Key: "d", Access: []ast.Node{&ast.DataRefExprNode{Arg: n}}}
+		return &ast.DataRefNode{Key: "d", Access: []ast.Node{&ast.DataRefExprNode{Arg: n}}}
 	case 4:
-		n = &ast.FunctionNode{Name: "g", Args: []ast.Node{n}}
+		return &ast.FunctionNode{Name: "g", Args: []ast.Node{n}}
 	case 5:
-		n = &ast.ListLiteralNode{Items: []ast.Node{n, n}}
+		return &ast.ListLiteralNode{Items: []ast.Node{n, n}}
 	case 6:
-		n = &ast.MapLiteralNode{Items: map[string]ast.Node{"k": n}}
+		return &ast.MapLiteralNode{Items: map[string]ast.Node{"k": n}}
+	case 7:
+		return &ast.DataRefNode{Key: "d", Access: []ast.Node{&ast.DataRefKeyNode{Key: "k"}, &ast.DataRefExprNode{NullSafe: true, Arg: n}, &ast.DataRefIndexNode{Index: 1}}}
 	}
-	c17Check(n)
+	return n
+}
+
+// H_roundLeaf: every leaf, alone and under each unary operator / inside each bracketing construct.
+func H_roundLeaf(k, wrap int) { c17Check(c17Wrap(c17Leaf(k), wrap)) }
+
+// H_roundWrapOp: every operator (over $x, 2, $y) inside each bracketing construct, and a string
+// leaf holding a symbolic byte as an operand of it.
+func H_roundWrapOp(o, wrap int) {
+	var x ast.Node = dref("x")
+	if o%2 == 1 {
+		x = c17Leaf(9)
+	}
+	c17Check(c17Wrap(c17Op(o, x, &ast.IntNode{Value: 2}, dref("y")), wrap))
 }
 
 // H_roundStr: a string literal (site 0), a map key (site 1) or both in one map entry (site 2)
